@@ -533,3 +533,64 @@ Lemma sock_get_eq s c d pf : s_from_pool s = true -> sock_get s c d pf = sock_ge
 Proof. intros H. unfold sock_get, sock_reset. rewrite H. reflexivity. Qed.
 
 End Proofs.
+
+(* ------------------------------------------------------------------ recycled = fresh *)
+Section Recycled.
+Variable g g' : nat -> nat -> nat -> nat.
+Variable registered : byte -> bool.
+Variable size_limit : N.
+
+Lemma args_recycled dirty ops :
+  rrel args_rel (run (args_step g) (args_reset dirty) ops) (run (args_step g') args_fresh ops).
+Proof. apply args_run_sim. apply args_reset_abs. Qed.
+
+Lemma msg_recycled dirty ops :
+  rrel msg_rel (run (msg_step g registered size_limit) (msg_reset dirty) ops)
+               (run (msg_step g' registered size_limit) msg_fresh ops).
+Proof. apply msg_run_sim. apply msg_reset_abs. Qed.
+
+Lemma ctx_recycled dirty sess sw ops : start_ok false ops = true ->
+  rrel ctx_rel (run (ctx_step g registered size_limit) (ctx_get dirty sess sw) ops)
+               (run (ctx_step g' registered size_limit) (ctx_get ctx_new sess sw) ops).
+Proof.
+  intros H. apply (ctx_run_sim g g' registered size_limit ops false); [apply ctx_get_abs|discriminate|exact H].
+Qed.
+
+Lemma bb_recycled (dirty : bbuf) n ops : forallb bop_safe ops = true ->
+  rrel bb_rel (run (bb_res g) (bb_put dirty) ops) (run (bb_res' g') (bb_fresh n) ops).
+Proof. intros H. apply bb_run_sim; [exact H|reflexivity]. Qed.
+
+Definition sock_res (s : sock) (o : sop) := Ok (A := sock * list val) (sock_step s o).
+
+Lemma sock_recycled dirty c d pf ops : s_from_pool dirty = true ->
+  run sock_res (sock_get dirty c d pf) ops = run sock_res (sock_get sock_pool_new c d pf) ops.
+Proof. intros H. rewrite (sock_get_eq dirty c d pf H). reflexivity. Qed.
+
+Lemma xp_recycled (dirty : xpipe) ids :
+  vis (fst (xp_append g registered (xp_reset dirty) ids)) = vis (fst (xp_append g' registered xp_fresh ids))
+  /\ snd (xp_append g registered (xp_reset dirty) ids) = snd (xp_append g' registered xp_fresh ids).
+Proof. apply xp_append_sim. reflexivity. Qed.
+
+End Recycled.
+
+(* ------------------------------------------------------------------ boundaries (witnesses) *)
+Definition g0 : nat -> nat -> nat -> nat := fun _ _ _ => 0.
+
+(* raw ChangeLen re-exposes the previous contents of a pooled buffer *)
+Lemma bb_changelen_witness :
+  exists dirty n,
+    rmap snd (run (bb_res g0) (bb_put dirty) [BChangeLen 2; BBytes])
+    <> rmap snd (run (bb_res g0) (bb_fresh n) [BChangeLen 2; BBytes]).
+Proof.
+  exists (mkGs [x41; x42] [] 0), 64. vm_compute. intros H. discriminate H.
+Qed.
+
+(* computing the cost before start is assigned reads the previous user's start *)
+Lemma ctx_cost_witness :
+  exists dirty sess sw,
+    rmap snd (run (ctx_step g0 (fun _ => true) 1000%N) (ctx_get dirty sess sw) [CRecordCost 10%Z; CObserve])
+    <> rmap snd (run (ctx_step g0 (fun _ => true) 1000%N) (ctx_get ctx_new sess sw) [CRecordCost 10%Z; CObserve]).
+Proof.
+  exists (mkCtx None msg_fresh msg_fresh None None None None 7%Z 0%Z None None None), 1%N, [].
+  vm_compute. intros H. discriminate H.
+Qed.
